@@ -78,6 +78,8 @@ PlainValues == IF Narrow THEN { VList(<<VInt(1)>>), VDict(<<KV(KeyA, VInt(1))>>)
                \* values that are equal under Python's == although of different kinds sit side by side:
                \* a conversion that remembers earlier inputs by equality would confuse them
                { VList(<<VBool(TRUE)>>), VList(<<VFloat(100)>>), VDict(<<KV(KeyA, VFloat(0))>>),
+                 \* a partial value with the `...: ...` placeholder (substitution reads it, must not consume it)
+                 VDict(<<KV(KeyA, VInt(1)), KV(VEllipsis, VEllipsis)>>),
                  VDict(<<KV(KeyA, VBool(FALSE))>>),
                  VList(<<VInt(1), VStr(<<A1, A1 + 1>>)>>), VList(<<>>),
                  VDict(<<KV(KeyA, VInt(1))>>), VDict(<<KV(KeyA, VInt(1)), KV(KeyB, VList(<<VInt(1)>>))>>) }
